@@ -308,7 +308,7 @@ fn api_level(run: &Run, subjects: &[u32], hay_cps: &[u32], kinds: &[&str], flag_
                                     case(fs, c, &format!("/{}/{} matches a different set of code points than the oracle class{}", print::show(&pat), fs, if *kind == "negclass" { " (complements shown)" } else { "" }), hexs(&e), hexs(&gg)).set("pattern", J::s(&print::show(&pat))).set("flags", J::s(fs)),
                                 );
                             } else if cls.len() > 1 {
-                                st.sample(|| J::obj().set("pattern", J::s(&print::show(&pat))).set("flags", J::s(fs)).set("matches_exactly", hexs(&g)).set("haystack", J::s(label)));
+                                st.sample(|| J::obj().set("pattern", J::s(&print::show(&pat))).set("flags", J::s(fs)).set("matches_exactly", hexs(&g[..g.len().min(24)])).set("matched_code_points", J::u(g.len() as u64)).set("haystack", J::s(label)));
                             }
                         }
                         Outcome::Panic(m) => st.violation(&run.known, "C10", "panic", 1, case(fs, c, "panic while matching", J::Null, J::s(&m))),
